@@ -21,6 +21,7 @@ for k in (1, 2, 3, 4):
             "ran": "tools/seedcheck.py (scratch worktree under /tmp: demo on unchanged tree, patch applied, go build, go vet, full go test, demo with change, every spokcheck property)"}
     json.dump(meta, open(f"{d}/meta.json", "w"), indent=1)
     made.append(d)
+subprocess.call(["python3", "/verif/tools/rebase_patches.py"] + made)
 procs = [subprocess.Popen(["python3", "/verif/tools/seedcheck.py", d]) for d in made]
 for p in procs: p.wait()
 for d in made:
